@@ -557,6 +557,12 @@ def run(prop, tier):
         import reg_stream
         reg_stream.run(ck, prop, tier, ex, ps)
 
+    if prop in ("C08", "C03", "C20"):
+        # a process with two frontends of different queue types (bounded dropping + unbounded blocking): harness h2_mixed against
+        # `driver mixed trace` + the property oracles (tools/mixed_stream.py)
+        import mixed_stream
+        mixed_stream.run(ck, prop, tier, ex, ps)
+
     mine_or = [o for o in res["oracle"] if o["prop"] == prop]
     mine_mm = [m for m in res["mismatches"] if prop in m["props"]]
     # listed findings are recognised by their input class (the oracle tags the class); anything else still alarms
@@ -673,6 +679,9 @@ def replay(prop, path):
     if "sinkreg" in open(path).readline():
         import sinkreg_stream
         return sinkreg_stream.replay(prop, path)
+    if open(path).readline().startswith("# h2_mixed"):
+        import mixed_stream
+        return mixed_stream.replay(prop, path)
     if "h3_tsc" in open(path).readline():
         import tsc_stream
         return tsc_stream.replay(prop, path)
